@@ -16,6 +16,12 @@ RULE = (
     "(fed with what each flush did when flushes themselves fail); the exception escaping value() is the raised instance. "
     "distinct = (base hash, fault, level); non-trivial = some exception was delivered at a yield or escaped the root."
 )
+RULE += (
+    " A separate unit delivers failures whose CLASS is special (StopIteration, a subclass of it, "
+    "StopAsyncIteration, KeyError, a two-argument exception) from ErrorFuture / lazy future / batch item "
+    "inside 11 yield shapes to a body that catches them in the frame that yielded: the very instance must "
+    "arrive."
+)
 ASSUMPTIONS = [
     "faults are injected only where user code can put one (task bodies, flush bodies, value providers)",
     "fault positions are exhaustive per base program for single faults; bases and fault pairs are sampled",
